@@ -679,6 +679,11 @@ class Fxp():
             val = val.val * 2**(self.n_frac - val.n_frac)
             raw = True
 
+            # the scaled raw value keeps its own type: a cast to the value type of the source
+            # (e.g. int) would truncate fractional raw values before they are rounded
+            if vdtype != complex and getattr(val, 'dtype', None) is not None and val.dtype.kind in 'iuf':
+                vdtype = val.dtype
+
         elif isinstance(val, (int, float, complex)):
             vdtype = type(val)
 
